@@ -205,6 +205,42 @@ func ExcludedVariants(forest []*Node, o EmitOpts, rot int) []Variant {
 	return out
 }
 
+// ExcludedAllForms returns one variant per (struct, position, form): every
+// form at every position.
+func ExcludedAllForms(forest []*Node, o EmitOpts) []Variant {
+	base := Decls(forest, o)
+	var out []Variant
+	for di := range base {
+		for pos := 0; pos <= len(base[di].Fields); pos++ {
+			for _, form := range ExcludedForms {
+				d := cloneDecls(base)
+				line := form.Decl
+				if strings.Count(line, "%d") == 2 {
+					line = fmt.Sprintf(line, 1, 1)
+				} else if strings.Contains(line, "%d") {
+					line = fmt.Sprintf(line, 1)
+				}
+				if form.Name == "multi_name_share" {
+					if pos < len(d[di].Fields) {
+						d[di].Fields[pos] = shareDecl(d[di].Fields[pos], line)
+					} else {
+						d[di].Fields = insertAt(d[di].Fields, pos, line+" int64")
+					}
+				} else {
+					d[di].Fields = insertAt(d[di].Fields, pos, line)
+				}
+				var imps []string
+				if form.Import != "" {
+					imps = []string{form.Import}
+				}
+				out = append(out, Variant{Kind: "excluded", Desc: fmt.Sprintf("%s[%d]+%s", base[di].Name, pos, form.Name), Depth: depthOf(base[di].Context),
+					Forms: []string{form.Name}, Ctx: base[di].Context, Code: Render(d, imps)})
+			}
+		}
+	}
+	return out
+}
+
 func containsLine(ls []string, l string) bool {
 	for _, x := range ls {
 		if x == l {
